@@ -17,6 +17,7 @@ static mut HAVE_PROBE: bool = false;
 static mut WATCH: bool = false;
 /// callback fuse for C18: when it reaches zero inside a callback the collection is inspected through LIST_PTR
 static mut FUSE: u8 = 255;
+static mut FUSE_FIRED: bool = false;
 static mut LIST_PTR: *const KeyExpList<Key, u8, u8> = std::ptr::null();
 static mut PRE: ([(u8, u8, u8); MAXN], usize) = ([(0, 0, 0); MAXN], 0);
 
@@ -38,30 +39,33 @@ impl Key {
 fn fuse_tick() {
     unsafe {
         if FUSE == 0 && !LIST_PTR.is_null() {
-            // C18: a panic here would unwind out of the operation; the collection the caller is left with is what we see now
-            let (snap, min_exp) = (*LIST_PTR).verif_snapshot();
-            let mut i = 0;
+            // C18: a panic here would unwind out of the operation; the collection the caller is left with is what we see now:
+            // it must be sorted, its cached earliest expiration valid, and its live entries exactly the live entries before.
+            let l = &*LIST_PTR;
+            let len = l.verif_len();
+            let min_exp = l.verif_min_exp();
             let mut live_pre = 0;
+            let mut i = 0;
             while i < PRE.1 {
                 if PRE.0[i].1 > NOW {
                     live_pre += 1;
                 }
                 i += 1;
             }
-            let mut j = 0;
             let mut live_now = 0;
-            while j < snap.len() {
-                assert!(min_exp <= snap[j].0.x);
+            let mut j = 0;
+            while j < len {
+                let (k, v) = l.verif_entry(j);
+                assert!(min_exp <= k.x);
                 if j > 0 {
-                    assert!(snap[j - 1].0.k < snap[j].0.k);
+                    assert!(l.verif_entry(j - 1).0.k < k.k);
                 }
-                if snap[j].0.x > NOW {
+                if k.x > NOW {
                     live_now += 1;
-                    // every live entry now is a live entry of the pre-state with the same value
                     let mut found = false;
                     let mut q = 0;
                     while q < PRE.1 {
-                        if PRE.0[q].0 == snap[j].0.k && PRE.0[q].1 == snap[j].0.x && PRE.0[q].2 == snap[j].1 {
+                        if PRE.0[q].0 == k.k && PRE.0[q].1 == k.x && PRE.0[q].2 == v {
                             found = true;
                         }
                         q += 1;
@@ -71,6 +75,7 @@ fn fuse_tick() {
                 j += 1;
             }
             assert!(live_now == live_pre);
+            FUSE_FIRED = true;
         }
         if FUSE != 255 && FUSE > 0 {
             FUSE -= 1;
@@ -221,21 +226,26 @@ fn assert_key_state(l: &KeyExpList<Key, u8, u8>, e: &[(u8, u8, u8); MAXN], n: us
     }
 }
 
-unsafe fn watch(t: u8, probe: Option<(u8, u8)>, pre: &([(u8, u8, u8); MAXN], usize), l: &KeyExpList<Key, u8, u8>) {
+unsafe fn watch(t: u8, probe: Option<(u8, u8)>) {
     NOW = t;
     HAVE_PROBE = probe.is_some();
     if let Some(p) = probe {
         PROBE = p;
     }
     WATCH = true;
+}
+
+unsafe fn arm_fuse(pre: &([(u8, u8, u8); MAXN], usize), l: &KeyExpList<Key, u8, u8>) {
     PRE = *pre;
     LIST_PTR = l as *const _;
     let f: u8 = kani::any();
-    kani::assume(f < 4 || f == 255);
+    kani::assume(f < 3);
     FUSE = f;
 }
 
 // ------------------------------------------------------------------------------------------------ KeyExpList  (C13, C18, C20)
+/// C13 + C20 (list): the three predecessor queries and exact lookup from an arbitrary valid list; the instrumented key asserts
+/// that only the probe or live keys reach Ord::cmp / the comparator closure.
 #[kani::proof]
 #[kani::unwind(6)]
 fn c13_keylist_queries() {
@@ -246,7 +256,7 @@ fn c13_keylist_queries() {
     let k: u8 = kani::any();
     let kx: u8 = kani::any();
     let probe = Key { k, x: kx };
-    unsafe { watch(t, Some((k, kx)), &(e, n), &l) };
+    unsafe { watch(t, Some((k, kx))) };
     let which: u8 = kani::any();
     kani::assume(which < 4);
     if which == 0 {
@@ -286,7 +296,7 @@ fn c13_keylist_insert() {
     let v: u8 = kani::any();
     kani::assume(x >= t);
     kani::assume(ref_find(&e, n, Some(t), k).is_none());
-    unsafe { watch(t, Some((k, x)), &(e, n), &l) };
+    unsafe { watch(t, Some((k, x))) };
     l.insert(Key { k, x }, v, t);
     unsafe { WATCH = false; FUSE = 255; }
     assert_key_state(&l, &e, n, t, Some((k, x, v)));
@@ -489,4 +499,43 @@ fn c12_lists_clear_equals_new() {
     assert_eq!(s.first_index_less(&k), EMPTY_REF);
     std::mem::forget(m);
     std::mem::forget(s);
+}
+
+/// C18 (list): state seen by a callback that panics mid-operation (symbolic callback index): sorted, valid cache, same live set.
+#[kani::proof]
+#[kani::unwind(6)]
+fn c18_keylist_callback_state() {
+    let (e, n) = any_entries();
+    kani::assume(n <= 2);
+    let mut l = key_list(&e, n);
+    let t: u8 = kani::any();
+    let d: u8 = kani::any();
+    let k: u8 = kani::any();
+    let kx: u8 = kani::any();
+    let probe = Key { k, x: kx };
+    unsafe {
+        NOW = t;
+        WATCH = false;
+        arm_fuse(&(e, n), &l);
+    }
+    let which: u8 = kani::any();
+    kani::assume(which < 4);
+    if which == 0 {
+        l.first_less(t, d, probe);
+    } else if which == 1 {
+        l.get_value(t, probe);
+    } else if which == 2 {
+        let p9: u16 = kani::any();
+        kani::assume(p9 < 512);
+        l.first_less_or_equal_by(t, d, |key: Key| {
+            fuse_tick();
+            (2 * key.k as u16).cmp(&p9)
+        });
+    } else {
+        kani::assume(kx >= t && ref_find(&e, n, Some(t), k).is_none());
+        l.insert(probe, d, t);
+    }
+    kani::cover!(unsafe { FUSE_FIRED });
+    unsafe { FUSE = 255; }
+    std::mem::forget(l);
 }
